@@ -57,7 +57,15 @@ def classify(B, steps):
             return ('missing-parent', k) if isinstance(e, c11_wrapped(style)) else ('parent-other-error', k)
     style, arg = steps[-1]
     if isinstance(cur, _UNASSIGNABLE):
-        return ('immutable-holder', len(steps) - 1)   # nothing can be deleted from it, present or not
+        # nothing can be deleted from it, present or not.  An ITEM that is there (plain `del` refuses with a TypeError, which is not
+        # what a missing key or index looks like) is not a "missing final element": ignore_missing has nothing to ignore
+        if style in ('[', 'P'):
+            try:
+                access(cur, style, arg)
+                return ('immutable-holder-item-present', len(steps) - 1)
+            except Exception:
+                pass
+        return ('immutable-holder', len(steps) - 1)
     try:
         access(cur, style, arg)
     except Exception as e:
@@ -188,8 +196,8 @@ def run_case(col, rng, recipe, shared, segs, k_exist, purpose):
             col.violation('C12/missing-parent-not-PathAccessError:' + style, '%s: a parent is absent, glom gave %r' % (desc, got), wit)
     else:
         # injected fault / immutable container / exotic lookup error: must not claim success silently unless ignore_missing
-        if got.ok and not ignore:
-            col.violation('C12/impossible-deletion-succeeds:' + kind, '%s: plain Python fails (%r), glom returned' % (desc, ref_err), wit)
+        if got.ok and (not ignore or kind == 'immutable-holder-item-present'):
+            col.violation('C12/impossible-deletion-succeeds:' + kind + (':ignore-missing' if ignore else ''), '%s: plain Python fails (%r), glom returned' % (desc, ref_err), wit)
 
 
 def wildcard_deletes(col, rng):
